@@ -76,7 +76,8 @@ class BaseFiles(Generic[Interface]):
         try:
             stat_result = os.stat(path)
             return stat_result, stat.S_ISREG(stat_result.st_mode)
-        except FileNotFoundError:
+        except (FileNotFoundError, NotADirectoryError, ValueError):
+            # NotADirectoryError: '/file.txt/x'; ValueError: embedded null byte
             return None, False
 
     def if_none_match(self, etag: str, if_none_match: str) -> bool:
